@@ -115,8 +115,8 @@ CLAIMED = {
         "DESIGN.md §4 C18",
     ),
     "C19": (
-        "Model-based stateful property testing of the three factories and the swap router over a universe of nine assets (five native denoms with registered decimals, four cw20 tokens with different decimals): generated histories of create / remove / re-create of pairs, trios, vaults and incentive contracts with the assets in generated orders, adding / removing / executing 1..3-hop routes (free and built along registered pairs), and paginated listings with limits in 1..31 followed to the end. Reference model = sets of unordered asset sets. Duplicates in any order must be rejected and new sets accepted; each registry entry (queried in every asset order) must equal what the child itself reports; removed entries disappear and can be created again; concatenated pages equal the model set exactly once each; a route is stored only if every hop is a registered pair, and executing a route through a de-registered pair fails. Directed shapes: a registered trio attempted again in any asset order, removed and re-created in another; paged walks of pairs / trios / vaults during which the entry serving as the cursor is removed between two pages (every entry registered when the walk began must still be listed exactly once).",
-        "Fixed-length asset names (key collisions are outside the statement). Incentive factory has no remove message. Routes are keyed by asset labels; the universe has distinct labels.",
+        "Model-based stateful property testing of the three factories and the swap router over a universe of eleven assets (seven native denoms with registered decimals, three of them forming a prefix chain, and four cw20 tokens with different decimals): generated histories of create / remove / re-create of pairs, trios, vaults and incentive contracts with the assets in generated orders, adding / removing / executing 1..3-hop routes (free and built along registered pairs), and paginated listings with limits in 1..31 followed to the end. Reference model = sets of unordered asset sets. Duplicates in any order must be rejected and new sets accepted; each registry entry (queried in every asset order) must equal what the child itself reports; removed entries disappear and can be created again; concatenated pages equal the model set exactly once each; a route is stored only if every hop is a registered pair, and executing a route through a de-registered pair fails. Directed shapes: a registered trio attempted again in any asset order, removed and re-created in another; paged walks of pairs / trios / vaults during which the entry serving as the cursor is removed between two pages (every entry registered when the walk began must still be listed exactly once).",
+        "Asset names chosen so that no two asset sets concatenate to the same key (key collisions are outside the statement); the universe includes native denoms that are proper prefixes of one another. Incentive factory has no remove message. Routes are keyed by asset labels; the universe has distinct labels.",
         "stateful / model-based property testing with a set-valued reference model",
         "DESIGN.md §4 C19",
     ),
